@@ -98,6 +98,30 @@ def gen_orig(rng, used_names, ident, for_net=False):
 
 
 def gen_nm(rng, used_ids, used_names, p_rename=0.3, for_net=False, amp_ok=True):
+    """a name definition {id, orig}.  Names are deliberately REUSED across scopes: with probability
+    0.35 a name already handed out elsewhere in this design (rng._pool: another library's cell, another
+    cell's port / instance / net, …) is taken again if it is free in the present scope."""
+    pool = getattr(rng, "_pool", None)
+    if pool and rng.random() < 0.35:
+        for _ in range(4):
+            c = rng.choice(pool)
+            nm_name = c["orig"] if c["orig"] is not None else c["id"]
+            if c["id"].lower() in used_ids or nm_name in used_names:
+                continue
+            if not amp_ok and c["id"].startswith("&"):
+                continue
+            if for_net and (name_is_indexed(nm_name) or nm_name.endswith("[")):
+                continue
+            used_ids.add(c["id"].lower())
+            used_names.add(nm_name)
+            return {"id": c["id"], "orig": c["orig"]}
+    nm = _gen_nm_fresh(rng, used_ids, used_names, p_rename, for_net, amp_ok)
+    if pool is not None:
+        pool.append(dict(nm))
+    return nm
+
+
+def _gen_nm_fresh(rng, used_ids, used_names, p_rename=0.3, for_net=False, amp_ok=True):
     while True:
         ident = gen_ident(rng, used_ids, amp_ok=amp_ok)
         if rng.random() < p_rename:
@@ -151,6 +175,7 @@ def gen_design(rng, size="small", trigger=None):
          "medium": dict(libs=(1, 3), leaf=(1, 4), mid=(1, 5), kids=5, ports=5, width=5),
          "large": dict(libs=(2, 4), leaf=(2, 6), mid=(3, 9), kids=9, ports=7, width=9)}[size]
     top_ids, top_names = set(), set()
+    rng._pool = []          # names handed out so far in this design (reused across scopes by gen_nm)
     d = {"name": gen_nm(rng, set(), set()), "status": None, "body": []}
     if rng.random() < 0.6:
         st = {"ts": [rng.randint(1990, 2030), rng.randint(1, 12), rng.randint(1, 28), rng.randint(0, 23),
@@ -839,43 +864,46 @@ def sanitized_key(s):
 
 
 def gen_name03(rng, used, kind="x", bus=False, scalar_net=False):
-    """a sibling name: non-empty printable ASCII, outside the pinned / triggered sub-domains.
-    `used` : set of sanitized keys already taken, plus ("U", key) marks for keys taken by a name
-    with an upper-case letter.  Two siblings may share a key (identifier collision, resolved by
-    make_valid's _sdn_N_ suffix) only when neither contains an upper-case letter: collisions
-    involving upper case are C17's open sub-domain (case-sensitive conflict test)."""
+    """a sibling name: non-empty printable ASCII, outside the pinned / open sub-domains.
+    `used`: the names of the scope so far (exact).  Names are deliberately REUSED across scopes: with
+    probability 0.4 a name already handed out elsewhere in this netlist (rng._pool: a cell of another
+    library, a port / instance / cable of another cell, a library, …) is taken again if it is free in
+    the present scope; and siblings may collide after sanitising or differ only in letter case
+    (make_valid resolves that with an _sdn_N_ suffix)."""
+    pool = getattr(rng, "_pool", None)
     while True:
         r = rng.random()
-        if r < 0.45:
-            s = rng.choice(LET + LET.upper()) + "".join(rng.choice(IDCH) for _ in range(rng.randint(0, 7)))
+        from_pool = False
+        if pool and r < 0.4:
+            s = rng.choice(pool)
+            from_pool = True
         elif r < 0.6:
-            s = rng.choice(["_", "$", "0", "7", ".", "["]) + "".join(rng.choice(IDCH) for _ in range(rng.randint(1, 5)))
-        elif r < 0.75:
+            s = rng.choice(LET + LET.upper()) + "".join(rng.choice(IDCH) for _ in range(rng.randint(0, 7)))
+        elif r < 0.7:
+            s = rng.choice(["_", "$", "0", "7", ".", "[", "-"]) + "".join(rng.choice(IDCH) for _ in range(rng.randint(1, 5)))
+        elif r < 0.85:
             base = rng.choice(LET) + "".join(rng.choice(IDCH) for _ in range(rng.randint(0, 4)))
-            s = base + rng.choice(["[0]", "[12]", "_3_", ".q", "/x", "<1>", "$", "(", ")", " z", "_sdn_1_", "[1:0]", "]"])
+            s = base + rng.choice(["[0]", "[12]", "_3_", ".q", "/x", "<1>", "$", "(", ")", " z", "_sdn_1_", "[1:0]", "]", "-b"])
         else:
-            s = "".join(rng.choice(NAMECH) for _ in range(rng.randint(1, 9)))
+            s = "".join(rng.choice(NAMECH + "-") for _ in range(rng.randint(1, 9)))
         if not s or s[0] == "\\":
             continue
-        key = sanitized_key(s)
-        has_upper = any(c.isupper() for c in s)
         if s in used:
             continue
-        if key in used and (has_upper or ("U", key) in used):
+        if not name_ok03(s, bus, scalar_net, kind):
             continue
-        if key.endswith("_sdn_1_") or "_sdn_" in key:
-            # a name that already looks like a conflict suffix can collide with a generated one (C17)
-            if key in used:
-                continue
-        if scalar_net and (name_is_indexed(s) or s.endswith("[")):
-            continue
-        if bus and (not s[0].isalnum()) and s[-1].isalnum():
-            continue    # identifier '&_…' not ending in '_' : sub-domain of edif.reader.amp_underscore_bus
         used.add(s)
-        used.add(key)
-        if has_upper:
-            used.add(("U", key))
+        if pool is not None and not from_pool:
+            pool.append(s)
         return s
+
+
+def name_ok03(s, bus, scalar_net, kind="x"):
+    """outside the pinned sub-domain (a scalar net named like a bus bit); a scalar net name ending in
+    '[' is allowed again (its finding is fixed)"""
+    if scalar_net and name_is_indexed(s):
+        return False
+    return True
 
 
 def gen_props03(rng):
@@ -898,6 +926,7 @@ def gen_recipe(rng, size="small", trigger=None):
          "medium": dict(libs=(1, 3), leaf=(1, 4), mid=(1, 5), kids=5, ports=4, width=4),
          "large": dict(libs=(2, 4), leaf=(2, 6), mid=(3, 9), kids=8, ports=6, width=8)}[size]
     nlibs = rng.randint(*S["libs"])
+    rng._pool = []          # names handed out so far in this netlist (reused across scopes by gen_name03)
     used_l = set()
     libs = [{"name": gen_name03(rng, used_l), "data": {}, "definitions": [], "_used": set()} for _ in range(nlibs)]
     order = []      # (lib index, def dict) in creation (dependency) order
